@@ -22,17 +22,28 @@ namespace nmtools::view
     template <typename input_t, typename axis_t>
     constexpr auto softmax(const input_t& input, axis_t axis)
     {
-        auto a_input = view::aliased(input);
-        // following pytorch, only allow index axis (index array axis not allowed)
-        static_assert( meta::is_index_v<axis_t>
-            , "unsupported softmax, expect axis to be index"
-        );
-        // NOTE: this follow https://cs231n.github.io/linear-classify/#softmax for numerical stability
-        auto a = view::reduce_maximum(a_input,axis,/*dtype=*/None,/*initial=*/None,/*keepdims=*/True);
-        auto b = view::subtract(a_input,a);
-        auto c = view::exp(b);
-        auto d = view::reduce_add(c,axis,/*dtype=*/None,/*initial=*/None,/*keepdims=*/True);
-        return view::divide(c,d);
+        if constexpr (meta::is_maybe_v<input_t>) {
+            // NOTE: lift the optional here so that the alias below refers to the object held by the caller's optional,
+            // aliasing an unwrapped (temporary) copy of an optional array would leave every sub-view dangling
+            using result_t = decltype(softmax(*input,axis));
+            using return_t = meta::conditional_t<meta::is_maybe_v<result_t>,result_t,nmtools_maybe<result_t>>;
+            return (has_value(input)
+                ? return_t{softmax(*input,axis)}
+                : return_t{meta::Nothing}
+            );
+        } else {
+            auto a_input = view::aliased(input);
+            // following pytorch, only allow index axis (index array axis not allowed)
+            static_assert( meta::is_index_v<axis_t>
+                , "unsupported softmax, expect axis to be index"
+            );
+            // NOTE: this follow https://cs231n.github.io/linear-classify/#softmax for numerical stability
+            auto a = view::reduce_maximum(a_input,axis,/*dtype=*/None,/*initial=*/None,/*keepdims=*/True);
+            auto b = view::subtract(a_input,a);
+            auto c = view::exp(b);
+            auto d = view::reduce_add(c,axis,/*dtype=*/None,/*initial=*/None,/*keepdims=*/True);
+            return view::divide(c,d);
+        }
     } // softmax
 } // namespace nmtools::view
 
